@@ -23,6 +23,8 @@ type c03W struct {
 	Main   []pnode   `json:"main"`
 	K      int       `json:"k"`      // schedules per program
 	Limits []int     `json:"limits"` // buffer-limit knob per schedule (0 = production)
+	Pfx    string    `json:"pfx,omitempty"`
+	NoPre  bool      `json:"nopre,omitempty"` // do not define mxfail (the caller did)
 }
 
 func init() {
@@ -36,6 +38,7 @@ type c03gen struct {
 	loopN  int
 	nfuncs int
 	budget int
+	fpfx   string // function name prefix (C28 runs several programs at once)
 }
 
 var c03Words = []string{"alpha", "beta", "a1b2", "xyz", "hello", "w0rld", "11", "212"}
@@ -87,7 +90,7 @@ func (g *c03gen) source(inFunc bool) string {
 		return fmt.Sprintf("ja [1..%d]", 1+g.r.Intn(6))
 	case 4:
 		if !inFunc && g.nfuncs > 0 {
-			return fmt.Sprintf("f%d %s", 1+g.r.Intn(g.nfuncs), g.word())
+			return fmt.Sprintf("%sf%d %s", g.fpfx, 1+g.r.Intn(g.nfuncs), g.word())
 		}
 		return "out " + g.word()
 	case 5:
@@ -193,7 +196,7 @@ func (g *c03gen) stmt(depth int, inFunc bool) pnode {
 		return n
 	case 9:
 		if !inFunc && g.nfuncs > 0 {
-			return pnode{T: "call", S: fmt.Sprintf("f%d %s", 1+g.r.Intn(g.nfuncs), g.word())}
+			return pnode{T: "call", S: fmt.Sprintf("%sf%d %s", g.fpfx, 1+g.r.Intn(g.nfuncs), g.word())}
 		}
 		return pnode{T: "out", S: g.word()}
 	default:
@@ -265,7 +268,7 @@ func printNode(b *strings.Builder, n pnode, indent string) {
 		b.WriteString(n.S + " = " + n.Stages[0])
 	case "exprout":
 		b.WriteString("out (" + n.S + ")")
-	case "call":
+	case "call", "raw":
 		b.WriteString(n.S)
 	case "pipe":
 		b.WriteString(n.S)
@@ -302,9 +305,11 @@ func printNode(b *strings.Builder, n pnode, indent string) {
 
 func (w *c03W) source() string {
 	var b strings.Builder
-	b.WriteString("function mxfail { return 3 }\n")
+	if !w.NoPre {
+		b.WriteString("function mxfail { return 3 }\n")
+	}
 	for i, f := range w.Funcs {
-		fmt.Fprintf(&b, "function f%d {\n", i+1)
+		fmt.Fprintf(&b, "function %sf%d {\n", w.Pfx, i+1)
 		b.WriteString("  out \"f:$1\"\n")
 		printBlock(&b, f, "  ")
 		b.WriteString("}\n")
